@@ -1,9 +1,9 @@
 # C13 — interrupted output never leaves a torn or missing file
-import concurrent.futures, json, os, re, shutil, subprocess
-from vlib.common import BUILD, REPO, run as sh
+import concurrent.futures, hashlib, json, os, re, shutil, subprocess
+from vlib.common import BUILD, REPO, GOENV, Lock, run as sh
 
 FP = ["lib/atomicfile:", "signers:fileProducer.Apply", "lib/binpatch:PatchSet.applyRewrite", "signers/msi:", "signers/pgp:"]
-SYSCALLS = "openat,write,pwrite64,fchmod,fchmodat,close,unlink,unlinkat,rename,renameat,renameat2,ftruncate"
+SYSCALLS = "openat,write,pwrite64,fchmod,fchmodat,close,unlink,unlinkat,rename,renameat,renameat2,ftruncate,copy_file_range,lseek"
 STRATEGIES = ["writefile", "whole", "patch", "msi", "pgp"]       # index = position in C13.Model.strategies_defer_close
 FAILABLE = ["whole", "patch", "msi", "pgp"]
 OLD = b"OLD-DESTINATION-CONTENT\n" * 10
@@ -96,15 +96,834 @@ def collapse(model_kinds):
         out.append(k)
     return out
 
-def run(ctx, replay=None):
-    st = ctx.prepare(["C13_gen"], ["C13"], "C13.Run")
-    if not st["harness_ok"]:
-        return ctx.finish("proof", ctx.proof_coverage([], FP), [])
+
+# =====================================================================================================================
+# Session 4: every strategy on every kind of destination; SIGKILL at every call of the output phase; an error injected
+# into every call of the output phase; sequential signings.  Driver command c13x; model request 1 (C13/Run.v).
+# =====================================================================================================================
+SYS2 = ("openat,read,pread64,write,pwrite64,lseek,copy_file_range,sendfile,splice,fchmod,fchmodat,close,unlink,unlinkat,"
+        "rename,renameat,renameat2,ftruncate,fstat,newfstatat,getppid,fsync,fdatasync,link,linkat,symlinkat,mkdirat")
+ERRNO = {"write": "ENOSPC", "pwrite64": "ENOSPC", "copy_file_range": "ENOSPC", "ftruncate": "ENOSPC", "openat": "EACCES",
+         "fchmod": "EPERM", "close": "EIO", "renameat": "EACCES", "lseek": "EIO", "read": "EIO", "pread64": "EIO",
+         "fstat": "EIO", "newfstatat": "EIO", "unlinkat": "EIO"}
+PSEUDO = (21, 22)            # steps of the model that are not system calls (order check, reading the server's response)
+NOT_RELIC = (95,)            # Go's os.Rename stats the new name first: not a step of relic's code
+COLLAPSE = (1, 8, 16, 24, 14)
+OLD2 = b"PREVIOUS-DESTINATION-CONTENT\n" * 7
+INPUT = bytes((i * 7 + 3) % 251 for i in range(5000))
+TEXT = b"first line\n-dash escaped line\nlast line without newline"
+KIND_NAMES = {0: "create-temp", 1: "write", 2: "pwrite", 3: "fchmod", 4: "close-temp", 5: "unlink-dest", 6: "rename", 7: "unlink-temp",
+              8: "copy", 9: "ftruncate", 10: "lseek-input", 11: "close-input", 12: "stat-dest", 13: "fstat-input", 14: "read-input",
+              15: "lseek-temp", 16: "pread-temp", 17: "write-stdout", 18: "open-dest-directly", 19: "pwrite-input", 20: "ftruncate-input",
+              23: "close-stdout", 24: "pread-input"}
+
+
+def unhex(sx):
+    return bytes.fromhex(sx.replace("\\x", ""))
+
+
+class Call:
+    __slots__ = ("name", "raw", "ret", "strs", "nums", "tail")
+
+    def __init__(self, line):
+        self.raw = line[:400]
+        self.tail = line[line.rfind('"') + 1:][:300]      # flags and return value (paths are long in \\xNN form)
+        self.name = line.split("(", 1)[0]
+        m = re.search(r"\)\s*=\s*(-?\d+|\?)[^)]*$", line)
+        self.ret = int(m.group(1)) if m and m.group(1) != "?" else None
+        self.strs = [unhex(x) for x in re.findall(r'"((?:\\x[0-9a-f]{2})*)"', line)]
+        args = re.sub(r'"(?:\\x[0-9a-f]{2})*"(\.\.\.)?', "S", line.split("(", 1)[1] if "(" in line else "")
+        args = re.sub(r"\{[^}]*\}", "T", args).rsplit(")", 1)[0]
+        self.nums = [int(x) for x in re.findall(r"(?<![\w.])(-?\d+)(?![\w.])", args)]
+
+
+def main_calls(lines, pid=None):
+    """the system calls of one thread (default: the first one in the trace), `<unfinished ...>` / `<... resumed>` pairs joined"""
+    calls, pending = [], None
+    if not lines:
+        return calls
+    pid = pid or lines[0].split()[0]
+    for l in lines:
+        parts = l.split(None, 1)
+        if len(parts) != 2 or parts[0] != pid:
+            continue
+        t = parts[1]
+        if t.endswith("<unfinished ...>"):
+            pending = t[:-len("<unfinished ...>")]
+            continue
+        m = re.match(r"<\.\.\. [a-z_0-9]+ resumed>(.*)$", t)
+        if m and pending is not None:
+            t, pending = pending + m.group(1), None
+        if re.match(r"[a-z_0-9]+\(", t):
+            calls.append(Call(t))
+    if pending is not None and re.match(r"[a-z_0-9]+\(", pending):
+        calls.append(Call(pending))          # killed inside the call
+    return calls
+
+
+def run_x(d, spec, kill=None, fail=None, full=False):
+    """one output phase of the real code under strace; kill / fail = (syscall name, ordinal) on the main thread"""
+    drv = os.path.join(BUILD, "drv-c13")
+    tr = os.path.join(d, "x.trace")
+    cmd = ["strace", "-f", "-o", tr, "-xx", "-s", "200000" if full else "300", "-e", "trace=" + SYS2]
+    if kill:
+        cmd += ["-e", "inject=%s:signal=SIGKILL:when=%d" % kill]
+    for f in (fail or []):
+        cmd += ["-e", "inject=%s:error=%s:when=%d" % (f[0], ERRNO.get(f[0], "EIO"), f[1])]
+    cmd += [drv, "c13x", spec]
+    p = subprocess.run(cmd, stdout=subprocess.PIPE, stderr=subprocess.PIPE, env=dict(os.environ, GOMAXPROCS="1"), timeout=120)
+    lines = open(tr).read().splitlines() if os.path.exists(tr) else []
+    try:
+        os.remove(tr)
+    except OSError:
+        pass
+    return p.returncode, main_calls(lines), p.stdout, p.stderr.decode(errors="replace")[-300:]
+
+
+class Scenario:
+    """builds the directory, the driver's spec and the model's description of one output phase"""
+
+    def __init__(self, base, name, strategy, dest_kind, **kw):
+        self.name, self.strategy, self.dest_kind, self.kw = name, strategy, dest_kind, kw
+        self.root = os.path.join(base, name)
+        self.d = os.path.join(self.root, "w")          # the directory that holds input and output
+        self.side = os.path.join(self.root, "side")    # what the server would have sent, the specs
+        self.first = kw.get("first")                   # a signing run to completion before this one (sequential signings)
+        self.family = strategy + ("-clearsign" if kw.get("clearsign") else "-inline-armor" if kw.get("inline") and kw.get("armor") else "-inline" if kw.get("inline") else "")
+
+    def input_bytes(self):
+        if self.strategy == "msi":
+            return open(os.path.join(REPO, "functest/packages/dummy.msi"), "rb").read()
+        if self.strategy == "pgp" and (self.kw.get("inline") or self.kw.get("clearsign")):
+            return TEXT
+        return INPUT
+
+    def build(self, sigs):
+        shutil.rmtree(self.root, ignore_errors=True)
+        os.makedirs(os.path.join(self.d, "sub"))
+        os.makedirs(self.side)
+        d, k = self.d, self.dest_kind
+        self.inp = os.path.join(d, "in.bin")
+        open(self.inp, "wb").write(self.input_bytes())
+        self.dest = os.path.join(d, "out.bin")
+        if k == "regular":
+            open(self.dest, "wb").write(OLD2)
+        elif k == "symlink":
+            open(os.path.join(d, "target.bin"), "wb").write(OLD2)
+            os.symlink("target.bin", self.dest)
+        elif k == "same":
+            self.dest = self.inp
+        elif k == "link-to-input":
+            os.symlink("in.bin", self.dest)
+        elif k == "hardlink":
+            os.link(self.inp, self.dest)
+        elif k == "dangling":
+            os.symlink("nowhere.bin", self.dest)
+        elif k == "otherdir":
+            self.dest = os.path.join(d, "sub", "out.bin")
+            open(self.dest, "wb").write(OLD2)
+        elif k == "linkdir":
+            os.symlink("sub", os.path.join(d, "ldir"))
+            self.dest = os.path.join(d, "ldir", "out.bin")
+        elif k == "dash":
+            self.dest = "-"
+        elif k == "devnull":
+            os.symlink("/dev/null", self.dest)
+        self.resigned = False
+        if self.first is not None:                      # a complete earlier signing to the same destination
+            fp = os.path.join(self.side, "first.json")
+            json.dump(self.spec_obj(self.first, sigs), open(fp, "w"))
+            rc, _, _, err = run_x(self.side, fp)
+            if rc != 0:
+                raise RuntimeError("first signing of %s failed: %s" % (self.name, err))
+            if self.kw.get("resign"):                   # the second signing reads what the first one wrote
+                self.inp, self.resigned = self.dest, True
+        self.spec = os.path.join(self.side, "spec.json")
+        json.dump(self.spec_obj(self.kw, sigs), open(self.spec, "w"))
+        self.old = self.read_dest()
+        self.input0 = open(self.inp, "rb").read()
+        self.nlink = os.lstat(self.dest).st_nlink if self.dest != "-" and os.path.lexists(self.dest) else 0
+        self.in_place_name = (self.dest == self.inp)
+
+    def spec_obj(self, kw, sigs):
+        sp = {"strategy": self.strategy, "in": self.inp, "dest": self.dest, "rw": self.dest == self.inp}
+        pay = kw.get("payload")
+        if self.strategy == "pgp":
+            sp.update({"inline": bool(kw.get("inline")), "clearsign": bool(kw.get("clearsign")), "armor": bool(kw.get("armor"))})
+            if pay is None:
+                pay = sigs["sig_clearsign" if kw.get("clearsign") else "sig_inline" if kw.get("inline") else "sig_detached"]
+        if self.strategy == "msi" and pay is None:
+            pay = bytes([0x30, 0x82]) * 3000
+        if pay is not None:
+            pf = os.path.join(self.side, "payload-%d.bin" % len(os.listdir(self.side)))
+            open(pf, "wb").write(pay)
+            sp["payload"] = pf
+        if "patches" in kw:
+            sp["patches"] = [{"off": o, "old": n, "blob": b.hex()} for o, n, b in kw["patches"]]
+            sp["unsorted"] = bool(kw.get("unsorted"))
+        return sp
+
+    def read_dest(self):
+        if self.dest == "-":
+            return None
+        try:
+            return open(self.dest, "rb").read()
+        except OSError:
+            return None
+
+    def listing(self):
+        out = {}
+        for root, dirs, files in os.walk(self.d):
+            for n in files + [x for x in dirs if os.path.islink(os.path.join(root, x))]:
+                pth = os.path.join(root, n)
+                rel = os.path.relpath(pth, self.d)
+                if os.path.islink(pth):
+                    out[rel] = "-> " + os.readlink(pth)
+                else:
+                    try:
+                        out[rel] = hashlib.sha256(open(pth, "rb").read()).hexdigest()[:16]
+                    except OSError:
+                        out[rel] = "?"
+        return out
+
+    def clone(self, tag):
+        """an identical, independent copy (hard links and symbolic links kept) for one interrupted run"""
+        c = Scenario.__new__(Scenario)
+        c.__dict__.update(self.__dict__)
+        c.root = self.root + "." + tag
+        shutil.rmtree(c.root, ignore_errors=True)
+        subprocess.run(["cp", "-a", self.root, c.root], check=True)
+        c.d, c.side = os.path.join(c.root, "w"), os.path.join(c.root, "side")
+        rel = lambda pth: pth if pth == "-" else os.path.join(c.root, os.path.relpath(pth, self.root))
+        c.inp, c.dest = rel(self.inp), rel(self.dest)
+        sp = json.load(open(self.spec))
+        for key in ("in", "dest", "payload"):
+            if key in sp:
+                sp[key] = rel(sp[key])
+        c.spec = os.path.join(c.side, "spec.json")
+        json.dump(sp, open(c.spec, "w"))
+        return c
+
+    # the model's description of the file system before the output phase: names 1 input, 2 destination, 3 temporary,
+    # 5 target of a link; inodes 10 input, 11 destination, 12 link target, 20 temporary
+    def model_fs(self):
+        k = self.dest_kind
+        dirents, inodes, pd = [[1, 0, 10]], [[10, self.input0]], 2
+        if self.resigned or k == "same":
+            pd = 1
+        elif k == "hardlink" and self.first is None:
+            dirents.append([2, 0, 10])
+        elif k == "link-to-input" and self.first is None:
+            dirents.append([2, 1, 1])
+        elif k == "dangling" and self.first is None:
+            dirents.append([2, 1, 6])
+        elif k == "devnull":
+            dirents += [[2, 1, 7], [7, 2, 0]]
+        elif k == "symlink" and self.first is None:
+            dirents += [[2, 1, 5], [5, 0, 12]]
+            inodes.append([12, OLD2])
+        elif self.old is not None:
+            dirents.append([2, 0, 11])
+            inodes.append([11, self.old])
+        return dirents, inodes, pd
+
+
+def decode_phase(sc, calls):
+    """calls after the marker -> events {k kind, a amount, i index into calls, data, off, ok}"""
+    start = next((i for i, c in enumerate(calls) if c.name == "getppid"), None)
+    if start is None:
+        return None
+    infd = None
+    for c in calls[:start]:
+        if c.name == "openat" and c.strs and c.strs[0].decode(errors="replace") == sc.inp and c.ret is not None and c.ret >= 0:
+            infd = c.ret
+    ev, tmpfd, tmpname = [], None, None
+    destb = sc.dest.encode()
+    for i in range(start + 1, len(calls)):
+        c = calls[i]
+        a = c.nums
+        fd = a[0] if a else None
+        n, k, amt, data, off = c.name, 96, 0, None, 0
+        ok = c.ret is not None and c.ret >= 0
+        istmp = tmpfd is not None and fd == tmpfd
+        if n == "openat":
+            pth = c.strs[0] if c.strs else b""
+            if "O_EXCL" in c.tail and b".tmp" in os.path.basename(pth):
+                k = 0
+                if ok:
+                    tmpfd, tmpname = c.ret, pth
+            elif pth == destb and "O_TRUNC" in c.tail:
+                k = 18
+            else:
+                k = 99
+        elif n == "fstat":
+            k = 13 if fd == infd else 98
+        elif n == "newfstatat":
+            k = 12 if c.strs and c.strs[0] == destb else 13 if c.strs and c.strs[0] == b"" and fd == infd else 98
+        elif n == "lseek":
+            k = 10 if fd == infd else 15 if istmp else 98
+        elif n == "write":
+            k = 1 if istmp else 17 if fd == 1 else 98
+            amt, data = (c.ret if ok else 0), (c.strs[0] if c.strs else None)
+        elif n == "pwrite64":
+            k = 2 if istmp else 19 if fd == infd else 98
+            amt, data, off = (c.ret if ok else 0), (c.strs[0] if c.strs else None), (a[-1] if a else 0)
+        elif n == "copy_file_range":
+            k, amt = 8, (c.ret if ok else 0)
+        elif n == "read":
+            k = (14 if sc.strategy == "pgp" else 8) if fd == infd else 98
+        elif n == "pread64":
+            k = 16 if istmp else 24 if fd == infd else 98
+        elif n == "ftruncate":
+            k, amt = (9 if istmp else 20 if fd == infd else 98), (a[1] if len(a) > 1 else 0)
+        elif n in ("fchmod", "fchmodat"):
+            k = 3
+        elif n == "close":
+            k = 4 if istmp else 11 if fd == infd else 23 if fd == 1 else 98
+        elif n in ("rename", "renameat", "renameat2"):
+            k = 6 if tmpname is not None and c.strs and c.strs[0] == tmpname and c.strs[-1] == destb else 97
+        elif n in ("unlink", "unlinkat"):
+            k = 7 if tmpname is not None and c.strs and c.strs[0] == tmpname else 5 if c.strs and c.strs[0] == destb else 97
+        ev.append({"k": k, "a": amt, "i": i, "data": data, "off": off, "ok": ok, "name": n})
+    for j, e in enumerate(ev):
+        if e["k"] == 12 and j + 1 < len(ev) and ev[j + 1]["k"] == 6:
+            e["k"] = 95
+    return {"start": start, "events": ev, "infd": infd, "tmpname": tmpname}
+
+
+def collapse2(pairs):
+    """[(kind, amount)] with runs of data transfer calls of one kind merged (a copy is as many calls as the kernel likes)"""
+    out = []
+    for k, a in pairs:
+        if k in PSEUDO or k in NOT_RELIC or k == 98:
+            continue
+        if out and out[-1][0] == k and k in COLLAPSE:
+            out[-1][1] += a
+        else:
+            out.append([k, a])
+    return out
+
+
+def kinds_of(pairs):
+    return [k for k, _ in collapse2(pairs)]
+
+
+def coalesce(ps):
+    """PatchSet.Add merges a patch that starts where the previous one ended (sorted input here)"""
+    out = []
+    for o, n, b in ps:
+        if out and o == out[-1][0] + out[-1][1]:
+            out[-1][1] += n
+            out[-1][2] += b
+        else:
+            out.append([o, n, b])
+    return out
+
+
+def model_request(sc, events):
+    dirents, inodes, pd = sc.model_fs()
+    st, sp = sc.strategy, json.load(open(sc.spec))
+    is_dash = 1 if sc.dest == "-" else 0
+    if st == "whole":
+        pay = open(sp["payload"], "rb").read()
+        args, sid = [is_dash, [pay[i:i + 32768] for i in range(0, len(pay), 32768)]], 0
+    elif st == "writefile":
+        args, sid = [is_dash, open(sp["payload"], "rb").read()], 1
+    elif st == "patch":
+        ps = [[p["off"], p["old"], bytes.fromhex(p["blob"])] for p in sp["patches"]]
+        if not sp.get("unsorted"):
+            ps = coalesce(sorted(ps, key=lambda p: p[0]))
+        args, sid = [sc.nlink, ps, 1 if sp.get("rw") else 0], 2
+    elif st == "msi":
+        # what comdoc writes into the copy is its own business (property C18); the edits are read off the trace
+        edits = []
+        for e in events:
+            if e["k"] in (2, 19):
+                edits.append([0, e["off"], e["data"] or b""])
+            elif e["k"] in (9, 20):
+                edits.append([1, e["a"]])
+        args, sid = [1 if sc.in_place_name else 0, sum(1 for e in events if e["k"] in (16, 24)), edits], 3
+    else:
+        # what go-crypto writes for a merge is its own business; reads of the input and writes are read off the trace
+        # (the first lseek on the input is pgpTransformer.Apply's own rewind before a merge; later ones are getSize's)
+        io, rewound = [], not (sc.kw.get("inline") or sc.kw.get("clearsign"))
+        wr = [e for e in events if e["k"] in (1, 17)]
+        # armor: the write just before "\n=" + CRC is the encoder's last line, the one whose error go-crypto itself drops
+        last_line = next((wr[i - 1]["i"] for i in range(1, len(wr)) if (wr[i]["data"] or b"").startswith(b"\n=")), None) if sc.kw.get("armor") else None
+        for e in events:
+            if e["k"] == 14:
+                io.append([0])
+            elif e["k"] in (1, 17):
+                io.append([3 if e["i"] == last_line else 1, e["data"] or b""])
+            elif e["k"] == 10:
+                if rewound:
+                    io.append([2])
+                rewound = True
+        args, sid = [is_dash, 1 if sc.kw.get("inline") else 0, 1 if sc.kw.get("clearsign") else 0, io], 4
+    return [1, sid, dirents, inodes, 1, pd, 3, 20, args]
+
+
+def scenarios(base, tier):
+    S = lambda *a, **kw: out.append(Scenario(base, *a, **kw))
+    out = []
+    pay = bytes((i * 13 + 5) % 256 for i in range(40000))          # two write calls
+    mid = [(8, 4, b"PATCHED!"), (3000, 0, b"INSERTED-IN-THE-MIDDLE")]  # sizes change: never in place
+    same = [(8, 8, b"SAMESIZE"), (100, 3, b"abc")]                    # every patch keeps its size: in place when the names agree
+    grow = [(8, 8, b"SAMESIZE"), (4990, 10, b"TAIL-GROWS-PAST-THE-OLD-END")]   # the last patch ends at the end of the input
+    for dk in ("absent", "regular", "symlink", "dangling", "otherdir", "linkdir", "same", "dash", "devnull"):
+        S("whole-" + dk, "whole", dk, payload=pay)
+    S("whole-empty", "whole", "regular", payload=b"")
+    S("whole-32768", "whole", "absent", payload=pay[:32768])
+    for dk in ("absent", "regular", "symlink", "dash"):
+        S("writefile-" + dk, "writefile", dk, payload=pay[:9000])
+    for dk in ("absent", "regular", "symlink", "same", "link-to-input", "hardlink", "dangling", "otherdir", "linkdir"):
+        S("patch-mid-" + dk, "patch", dk, patches=mid)
+    for dk in ("same", "hardlink", "link-to-input", "regular"):
+        S("patch-samesize-" + dk, "patch", dk, patches=same)
+    S("patch-grow-same", "patch", "same", patches=grow)
+    S("patch-grow-absent", "patch", "absent", patches=grow)
+    S("patch-none", "patch", "regular", patches=[])
+    S("patch-emptyblob", "patch", "absent", patches=[(0, 16, b""), (5000, 0, b"AT-EOF")])
+    S("patch-start", "patch", "regular", patches=[(0, 0, b"AT-START")])
+    S("patch-outoforder", "patch", "regular", patches=[(3000, 4, b"second"), (8, 4, b"first")], unsorted=True)
+    S("patch-beyond-eof", "patch", "regular", patches=[(8, 4, b"ok"), (6000, 0, b"beyond the end of the input")])
+    S("patch-overlap", "patch", "absent", patches=[(100, 50, b"one"), (120, 10, b"two")], unsorted=True)
+    for dk in ("absent", "regular", "symlink", "same", "link-to-input", "hardlink", "otherdir"):
+        S("msi-" + dk, "msi", dk)
+    for dk in ("absent", "regular", "symlink", "dash"):
+        S("pgp-detached-" + dk, "pgp", dk)
+        S("pgp-clearsign-" + dk, "pgp", dk, clearsign=True)
+    S("pgp-inline-absent", "pgp", "absent", inline=True)
+    S("pgp-inline-regular", "pgp", "regular", inline=True)
+    S("pgp-inline-armor", "pgp", "regular", inline=True, armor=True)
+    # two signings one after the other: the second starts from the complete output of the first
+    S("seq-whole", "whole", "absent", payload=pay[:20000][::-1], first={"payload": pay})
+    S("seq-whole-symlink", "whole", "symlink", payload=pay[:20000][::-1], first={"payload": pay})
+    S("seq-patch-resign", "patch", "absent", patches=[(16, 8, b"SECOND-SIGNATURE")], first={"patches": mid}, resign=True)
+    S("seq-patch-resign-inplace", "patch", "regular", patches=[(16, 8, b"8-BYTES!")], first={"patches": mid}, resign=True)
+    S("seq-msi-resign", "msi", "absent", first={}, resign=True, payload=bytes([0x30, 0x83]) * 2500)
+    S("seq-msi", "msi", "regular", first={}, payload=bytes([0x30, 0x83]) * 2500)
+    S("seq-pgp-clearsign", "pgp", "regular", clearsign=True, first={"clearsign": True})
+    return out
+
+
+def pgp_packets(b):
+    """RFC 4880 packet framing, written from the RFC: [(tag, body)] or None when the framing is broken or truncated"""
+    i, out = 0, []
+    while i < len(b):
+        t = b[i]
+        i += 1
+        if not t & 0x80:
+            return None
+        body = b""
+        if t & 0x40:
+            tag = t & 0x3f
+            while True:
+                if i >= len(b):
+                    return None
+                l = b[i]
+                i += 1
+                partial = False
+                if l < 192:
+                    n = l
+                elif l < 224:
+                    if i >= len(b):
+                        return None
+                    n = ((l - 192) << 8) + b[i] + 192
+                    i += 1
+                elif l == 255:
+                    n = int.from_bytes(b[i:i + 4], "big")
+                    i += 4
+                else:
+                    n, partial = 1 << (l & 0x1f), True
+                if i + n > len(b):
+                    return None
+                body += b[i:i + n]
+                i += n
+                if not partial:
+                    break
+        else:
+            tag, lt = (t >> 2) & 0xf, t & 3
+            if lt == 3:
+                body, i = b[i:], len(b)
+            else:
+                w = (1, 2, 4)[lt]
+                n = int.from_bytes(b[i:i + w], "big")
+                i += w
+                if i + n > len(b):
+                    return None
+                body = b[i:i + n]
+                i += n
+        out.append((tag, body))
+    return out
+
+
+def pgp_inline_payload(blob):
+    """the literal data of an inline-signed message (one-pass signature, literal data, signature), armored or not; None if it is not one"""
+    import base64
+    if blob.startswith(b"-----BEGIN PGP MESSAGE-----"):
+        try:
+            lines = blob.replace(b"\r\n", b"\n").split(b"\n")
+            k = lines.index(b"")
+            body = []
+            for l in lines[k + 1:]:
+                if l.startswith(b"=") or l.startswith(b"-----END"):
+                    break
+                body.append(l)
+            blob = base64.b64decode(b"".join(body), validate=True)
+        except Exception:
+            return None
+    pk = pgp_packets(blob)
+    if not pk or [t for t, _ in pk] != [4, 11, 2]:
+        return None
+    lit = pk[1][1]
+    if len(lit) < 6:
+        return None
+    return lit[2 + lit[1] + 4:]
+
+
+def observe_dir(sc, new):
+    """what the property talks about, read from the directory: (dest class, temporaries, input intact, listing)"""
+    dest = sc.read_dest()
+    cls = 0 if dest is None else 1 if dest == sc.old else 2 if dest == new else 3
+    if cls == 3 and sc.family.startswith("pgp-inline") and new is not None and pgp_inline_payload(dest) == sc.input0:
+        cls = 2       # a complete inline-signed message carrying the whole input, in another packet framing (streamed literal)
+    temps = sorted(n for n in sc.listing() if ".tmp" in os.path.basename(n))
+    try:
+        inp = open(sc.inp, "rb").read()
+    except OSError:
+        inp = None
+    if sc.in_place_name:
+        input_ok = inp is not None
+    else:
+        input_ok = inp == sc.input0
+    return cls, temps, input_ok, dest
+
+
+def pe_fixup(ctx, st, base, stats):
+    """pe-coff through the real command line: `relic sign` commits the output by rename and THEN fixes the PE checksum in place
+    (cmdline/token/signcmd.go: mod.Fixup after transform.Apply).  Killed before that pwrite64 the destination is neither the
+    previous nor the final content."""
+    relic = os.path.join(BUILD, "relic")
+    with Lock("relic_bin"):
+        rc, out, err, _ = sh(["go", "build", "-o", relic, "."], cwd=REPO, env=GOENV, timeout=1200)
+    if rc != 0:
+        stats["skipped"].append("pe-fixup: relic binary does not build: " + err[-200:])
+        return
+    d = os.path.join(base, "pe-fixup")
+    os.makedirs(d)
+    keys = os.path.join(REPO, "functest/testkeys")
+    conf = os.path.join(d, "relic.yml")
+    open(conf, "w").write("tokens:\n  file:\n    type: file\nkeys:\n  rsa2048:\n    token: file\n    keyfile: %s/rsa2048.key\n    x509certificate: %s/rsa2048.crt\n" % (keys, keys))
+    inp, dest = os.path.join(d, "in.dll"), os.path.join(d, "out.dll")
+    shutil.copyfile(os.path.join(REPO, "functest/packages/ClassLibrary1.dll"), inp)
+    cmd = [relic, "-c", conf, "sign", "-k", "rsa2048", "-f", inp, "-o", dest]
+
+    def attempt(inject):
+        open(dest, "wb").write(OLD2)
+        tr = os.path.join(d, "pe.trace")
+        p = subprocess.run(["strace", "-f", "-o", tr, "-e", "trace=openat,lseek,read,pwrite64,renameat"] + inject + cmd,
+                           stdout=subprocess.PIPE, stderr=subprocess.PIPE, timeout=180)
+        lines = open(tr).read().splitlines() if os.path.exists(tr) else []
+        got = open(dest, "rb").read() if os.path.exists(dest) else None
+        return p.returncode, lines, got, p.stderr.decode(errors="replace")[-300:]
+
+    rc, lines, final, err = attempt([])
+    stats["runs"] += 1
+    if rc != 0 or final is None:
+        stats["skipped"].append("pe-fixup: relic sign failed (%s) %s" % (rc, err))
+        return
+    pw = [l for l in lines if re.search(r"\bpwrite64\(", l)]
+    ren = [i for i, l in enumerate(lines) if "renameat(" in l and "out.dll" in l]
+    tail = []
+    if ren:
+        fd = None
+        for l in lines[ren[-1] + 1:]:       # the goroutine may move between threads: every thread, in time order
+            m = re.search(r'openat\(AT_FDCWD, "[^"]*out\.dll", O_RDWR[^)]*\)\s*=\s*(\d+)', l)
+            if m:
+                fd = m.group(1)
+                tail.append(25)
+            elif fd and re.search(r"\blseek\(%s," % fd, l):
+                tail.append(26)
+            elif fd and re.search(r"\bread\(%s," % fd, l):
+                if not tail or tail[-1] != 27:
+                    tail.append(27)
+            elif fd and re.search(r"\bpwrite64\(%s," % fd, l):
+                tail.append(2)
+    stats["pe_fixup"] = {"calls_after_rename": [KIND_NAMES.get(k, {25: "open-dest-rw", 26: "lseek-dest", 27: "read-dest"}.get(k, k)) for k in tail], "pwrite64_calls": len(pw)}
+    if st["model_ok"]:
+        m = re.search(r"pwrite64\(\d+, \"[^\"]*\"(?:\.\.\.)?, (\d+), (\d+)\)", pw[-1]) if pw else None
+        off = int(m.group(2)) if m else 0
+        res = ctx.run_model([[1, 5, [[1, 0, 10], [2, 0, 11]], [[10, b"MZ" + bytes(62)], [11, OLD2]], 1, 2, 3, 20, [[[8, 0, b"sig"]], 1, off, b"\x01\x02\x03\x04"]]])[0]
+        kinds = [o[0] for o in res[1]]
+        mtail = []
+        for k in kinds[kinds.index(6) + 1:] if 6 in kinds else []:
+            if not (k == 27 and mtail and mtail[-1] == 27):
+                mtail.append(k)
+        if mtail != tail or res[2]:
+            ctx.violation("C13:correspondence:pe-fixup", "calls after the rename %s differ from the model's fixup steps %s (accepted=%s)" % (tail, mtail, res[2]),
+                          {"real": tail, "model": mtail, "broken": "correspondence C13.Run (pe_sign_plan)"}, False)
+    if len(pw) != 1:
+        stats["skipped"].append("pe-fixup: expected exactly one pwrite64 in the whole run, saw %d" % len(pw))
+        return
+    rc2, lines2, got, err2 = attempt(["-e", "inject=pwrite64:signal=SIGKILL:when=1"])
+    stats["runs"] += 1
+    stats["kill_points"] += 1
+    if got is not None and got != OLD2 and got != final:
+        diff = [i for i in range(min(len(got), len(final))) if got[i] != final[i]]
+        ctx.violation("C13:fixup-after-commit:pe-checksum",
+                      "relic sign -T pe-coff -o <other file>: killed at the pwrite64 of FixPEChecksum (after the rename committed the output): the destination is neither the previous content nor the final content (%d bytes differ from the final file at offsets %s: the PE checksum field)" % (len(diff), diff[:8]),
+                      {"command": cmd, "kill_at": ["pwrite64", 1], "exit": rc2, "dest_len": len(got), "final_len": len(final), "differing_offsets": diff[:16],
+                       "reproduce": "strace -f -e trace=pwrite64 -e inject=pwrite64:signal=SIGKILL:when=1 relic -c relic.yml sign -k rsa2048 -f ClassLibrary1.dll -o out.dll"})
+    elif got == final:
+        ctx.notes.append("pe-fixup: the kill at pwrite64 #1 left the final content (checksum already correct?)")
+
+
+def extended(ctx, st):
+    base = os.path.join(ctx.scratch, "c13x")
+    os.makedirs(base, exist_ok=True)
+    side = os.path.join(base, "prep")
+    os.makedirs(side)
+    open(os.path.join(side, "text.txt"), "wb").write(TEXT)
+    rc, out, err, _ = sh([os.path.join(BUILD, "drv-c13"), "c13prep", side, os.path.join(side, "text.txt")], timeout=120)
+    if rc != 0:
+        ctx.violation("C13:driver:c13prep", "preparing OpenPGP signatures failed: " + err[-300:], {"stderr": err[-2000:]}, False)
+        return {}
+    sigs = {n: open(os.path.join(side, n), "rb").read() for n in os.listdir(side) if n.startswith("sig_")}
+    scs = scenarios(base, ctx.tier)
+    stats = {"scenarios": 0, "runs": 0, "kill_points": 0, "fault_points": 0, "model_compared": 0, "modes": {}, "distinct": set(),
+             "natural_failures": 0, "in_place": 0, "double_fault_replays": 0, "ignored_failures": 0, "samples": [], "skipped": []}
+    refs = []
+    # ---------------------------------------------------------------- reference runs (uninterrupted), model evaluation
+    for sc in scs:
+        try:
+            sc.build(sigs)
+        except Exception as e:
+            ctx.violation("C13:driver:build:" + sc.name, "scenario could not be built: %s" % e, {"scenario": sc.name}, False)
+            continue
+        ref = sc.clone("ref")
+        rc, calls, out, err = run_x(ref.side, ref.spec, full=True)
+        stats["runs"] += 1
+        ph = decode_phase(ref, calls)
+        if ph is None:
+            ctx.violation("C13:driver:" + sc.name, "no output phase in the trace (rc=%s %s)" % (rc, err), {"scenario": sc.name, "stderr": err}, False)
+            continue
+        cls, temps, input_ok, dest = observe_dir(ref, None)
+        new = dest if rc == 0 else None
+        sc.ref = {"rc": rc, "calls": calls, "phase": ph, "new": new, "stdout": out, "listing": ref.listing(),
+                  # the property exempts a destination that is patched in place; a special file is written directly: seen in the trace
+                  "exempt": any(e["k"] in (18, 19, 20) for e in ph["events"])}
+        stats["scenarios"] += 1
+        desc = {"scenario": sc.name, "strategy": sc.strategy, "destination": sc.dest_kind, "spec": json.load(open(ref.spec)), "rc": rc}
+        # ---- model-free oracle: normal completion or handled error
+        if temps:
+            ctx.violation("C13:spec:temp-left-after-%s" % ("success" if rc == 0 else "error"),
+                          "%s: temporary file left next to the output after %s: %s" % (sc.name, "normal completion" if rc == 0 else "a handled error", temps), dict(desc, temps=temps))
+        if not input_ok:
+            ctx.violation("C13:spec:input-modified", "%s: input file modified" % sc.name, desc)
+        if rc != 0 and dest != sc.old:
+            ctx.violation("C13:spec:dest-changed-on-error", "%s: destination changed although the operation failed" % sc.name, desc)
+        if sc.dest == "-" and rc == 0 and not out:
+            ctx.violation("C13:spec:stdout-empty", "%s: nothing written to standard output" % sc.name, desc, False)
+        shutil.rmtree(ref.root, ignore_errors=True)
+        refs.append(sc)
+    # ---- model on the same cases
+    model = {}
+    if st["model_ok"] and refs:
+        reqs = [model_request(sc, sc.ref["phase"]["events"]) for sc in refs]
+        try:
+            res = ctx.run_model(reqs, timeout=600)
+        except Exception as e:
+            ctx.violation("C13:model-run", "model evaluation failed: %s" % e, {"error": str(e)}, False)
+            res = []
+        for sc, r in zip(refs, res):
+            mode, ops, accepted, natural, final, crashes, faults = r
+            model[sc.name] = {"mode": mode, "ops": [tuple(o) for o in ops], "accepted": accepted, "natural": natural,
+                              "final": final, "crashes": crashes, "faults": faults}
+            stats["modes"][mode] = stats["modes"].get(mode, 0) + 1
+            stats["model_compared"] += 1
+            ev = sc.ref["phase"]["events"]
+            real = collapse2([(e["k"], e["a"]) for e in ev])
+            desc = {"scenario": sc.name, "strategy": sc.strategy, "destination": sc.dest_kind, "spec": json.load(open(sc.spec))}
+            mops = list(model[sc.name]["ops"])
+            if natural >= 0:
+                # the inputs make step `natural` fail: the code runs up to it, then the clean-up of that step
+                stats["natural_failures"] += 1
+                mops = mops[:natural + 1] + [(k, 0) for k in faults[natural][5]]
+            want = collapse2(mops)
+            if mode == 1:
+                want = None        # direct write to a special file: exempt, only the absence of a temporary is checked
+            if len(stats["samples"]) < 4 and sc.name in ("patch-mid-symlink", "msi-hardlink", "pgp-clearsign-regular", "patch-outoforder"):
+                stats["samples"].append({"scenario": sc.name, "mode": mode, "real_ops": [[KIND_NAMES.get(k, k), a] for k, a in real][:24],
+                                         "model_ops": [[KIND_NAMES.get(k, k), a] for k, a in (want or [])][:24]})
+            if want is not None and [k for k, _ in real] != [k for k, _ in want]:
+                ctx.violation("C13:correspondence:ops:" + sc.strategy,
+                              "%s: system calls of the output phase %s differ from the model's plan %s" % (sc.name, [KIND_NAMES.get(k, k) for k, _ in real], [KIND_NAMES.get(k, k) for k, _ in want]),
+                              dict(desc, real=real, model=want, broken="correspondence C13.Run (trace vs plan)"), False)
+            elif want is not None and natural < 0 and [a for k, a in real if k in (1, 8, 2, 9, 17, 19, 20)] != [a for k, a in want if k in (1, 8, 2, 9, 17, 19, 20)]:
+                ctx.violation("C13:correspondence:amounts:" + sc.strategy, "%s: byte counts of the output phase %s differ from the model's %s" % (sc.name, real, want),
+                              dict(desc, real=real, model=want, broken="correspondence C13.Run (amounts)"), False)
+            if mode == 2 and not accepted:
+                ctx.violation("C13:correspondence:protocol:" + sc.strategy, "%s: the model's plan for these inputs is not a write-rename protocol run" % sc.name,
+                              dict(desc, model=want, broken="check pt pd it 0 plan = Some 2"), False)
+            # final state
+            exp_rc_ok = natural < 0
+            if (sc.ref["rc"] == 0) != exp_rc_ok:
+                ctx.violation("C13:correspondence:outcome:" + sc.strategy, "%s: real code %s but the model predicts %s" % (sc.name, "succeeded" if sc.ref["rc"] == 0 else "failed", "success" if exp_rc_ok else "a handled error"),
+                              dict(desc, rc=sc.ref["rc"], natural_fault=natural, broken="correspondence C13.Run (outcome)"), False)
+            elif mode in (2, 3) and sc.ref["rc"] == 0 and bytes.fromhex(final[4]) != (sc.ref["new"] or b""):
+                ctx.violation("C13:correspondence:content:" + sc.strategy, "%s: destination content written by the real code differs from the model's" % sc.name,
+                              dict(desc, real_len=len(sc.ref["new"] or b""), model_len=len(bytes.fromhex(final[4])), broken="correspondence C13.Run (final content)"), False)
+            if mode == 3:
+                stats["in_place"] += 1
+    # ---------------------------------------------------------------- interrupted runs
+    jobs = []
+    for sc in refs:
+        calls, ph = sc.ref["calls"], sc.ref["phase"]
+        counts = {}
+        ordinal = []
+        for c in calls:
+            counts[c.name] = counts.get(c.name, 0) + 1
+            ordinal.append((c.name, counts[c.name]))
+        evs = ph["events"]
+        pts = [(j, e) for j, e in enumerate(evs)]
+        for j, e in pts:
+            jobs.append((sc, "kill", j, ordinal[e["i"]]))
+            if e["name"] in ERRNO and e["k"] not in NOT_RELIC:
+                jobs.append((sc, "fail", j, ordinal[e["i"]]))
+        jobs.append((sc, "kill", len(evs), ("getppid", 2)))   # never reached: the run completes (end point)
+        # the refuted witness, replayed: first a failing data call, then the unlink of the clean-up fails too
+        firstw = next((e for e in evs if e["k"] in (1, 8, 2)), None)
+        if firstw is not None and model.get(sc.name, {}).get("mode") == 2 and sc.name in ("whole-regular", "patch-mid-regular", "msi-regular", "pgp-clearsign-regular"):
+            jobs.append((sc, "fail2", evs.index(firstw), ordinal[firstw["i"]]))
+
+    def one(job):
+        sc, what, j, pt = job
+        c = sc.clone("%s_%d" % (what, j))
+        try:
+            if what == "kill":
+                rc, calls, out, err = run_x(c.side, c.spec, kill=pt)
+            elif what == "fail":
+                rc, calls, out, err = run_x(c.side, c.spec, fail=[pt])
+            else:
+                rc, calls, out, err = run_x(c.side, c.spec, fail=[pt, ("unlinkat", 1)])
+            obs = observe_dir(c, sc.ref["new"])
+            ph = decode_phase(c, calls)
+            islink = c.dest != "-" and os.path.islink(c.dest)
+            if ph is not None:
+                ph["raw"] = [x.raw[:220] for x in calls[ph["start"]:]][:60]
+            return job, rc, obs, ph, islink, err
+        finally:
+            shutil.rmtree(c.root, ignore_errors=True)
+
+    with concurrent.futures.ThreadPoolExecutor(max_workers=14) as ex:
+        results = list(ex.map(one, jobs))
+    for (sc, what, j, pt), rc, (cls, temps, input_ok, dest), ph, islink, err in results:
+        stats["runs"] += 1
+        m = model.get(sc.name)
+        evs_ref = sc.ref["phase"]["events"]
+        desc = {"scenario": sc.name, "strategy": sc.strategy, "destination": sc.dest_kind, "spec": json.load(open(sc.spec)),
+                "inject": what, "at": {"syscall": pt[0], "ordinal": pt[1], "call": (evs_ref[j]["name"] + " = " + KIND_NAMES.get(evs_ref[j]["k"], str(evs_ref[j]["k"]))) if j < len(evs_ref) else "end"}, "rc": rc}
+        exempt = sc.ref["exempt"]
+        if what == "kill":
+            killed = rc in (-9, 137)
+            if killed:
+                stats["kill_points"] += 1
+                stats["distinct"].add((sc.strategy, sc.dest_kind, "kill", evs_ref[j]["k"] if j < len(evs_ref) else -1))
+            # ---- model-free oracle (the property text): complete old or complete new content, never lost, input unmodified
+            if not exempt and sc.dest != "-":
+                if cls == 3 or (cls == 0 and sc.old is not None):
+                    ctx.violation("C13:spec:crash:%s:%s" % ("dest-missing" if cls == 0 else "dest-torn", sc.family),
+                                  "%s: killed at %s #%d (%s): destination is %s" % (sc.name, pt[0], pt[1], desc["at"]["call"], "missing" if cls == 0 else "neither the previous nor the new content (%d bytes)" % len(dest or b"")), desc)
+                if not input_ok:
+                    ctx.violation("C13:spec:input-modified", "%s: input modified (killed at %s #%d)" % (sc.name, pt[0], pt[1]), desc)
+            if exempt and temps and m is not None and m["mode"] == 3:
+                ctx.violation("C13:correspondence:inplace-temp", "%s: a temporary file exists although the model says in place" % sc.name, dict(desc, temps=temps), False)
+            if not killed and j < len(evs_ref):
+                continue    # the ordinal was not reached in this run (the runs are not perfectly repeatable): nothing to compare
+            # ---- model: the state after the completed calls
+            if m is not None and m["mode"] in (2, 3) and m["natural"] < 0 and ph is not None:
+                got = kinds_of([(e["k"], e["a"]) for e in ph["events"][:j]] if killed else [(e["k"], e["a"]) for e in ph["events"]])
+                ks = [k for k in range(len(m["ops"]) + 1) if kinds_of(m["ops"][:k]) == got]
+                if not ks:
+                    continue
+                mc = m["crashes"][ks[0]]
+                real = [cls, 1 if temps else 0, 1 if input_ok else 0, 1 if islink else 0]
+                if sc.in_place_name:
+                    real[2] = mc[2]       # the input is the destination: compared through dest class
+                if real != mc:
+                    ctx.violation("C13:correspondence:crash:" + sc.strategy,
+                                  "%s: after %d completed calls the directory shows [dest class, temp, input ok, dest is link] = %s, the model %s" % (sc.name, j, real, mc),
+                                  dict(desc, real=real, model=mc, broken="correspondence C13.Run (scrash)"), False)
+        else:
+            if ph is None or j >= len(ph["events"]) or ph["events"][j]["ok"]:
+                continue        # the injection did not hit the intended call
+            stats["fault_points"] += 1
+            stats["distinct"].add((sc.strategy, sc.dest_kind, what, evs_ref[j]["k"]))
+            after = [(e["k"], e["a"]) for e in ph["events"][j + 1:]]
+            if what == "fail2" or evs_ref[j]["k"] == 7:
+                # cleanup_unlink_failure_refuted, replayed: the unlink of the clean-up itself fails (here: after the inputs made a
+                # step fail); nothing can remove the temporary then
+                stats["double_fault_replays"] += 1
+                if not temps and rc != 0:
+                    ctx.notes.append("%s: double fault (data call and the unlink of the clean-up) did not leave a temporary" % sc.name)
+                continue
+            # ---- model-free oracle: handled error (or ignored failure): no temporary, destination old or new, input unmodified
+            if temps and not exempt:
+                ctx.violation("C13:spec:temp-left-after-error", "%s: %s of %s #%d (%s) fails: temporary file left next to the output: %s" % (sc.name, ERRNO.get(pt[0]), pt[0], pt[1], desc["at"]["call"], temps), dict(desc, temps=temps))
+            if not exempt and sc.dest != "-":
+                if cls == 3 or (cls == 0 and sc.old is not None):
+                    ctx.violation("C13:spec:error:%s:%s" % ("dest-missing" if cls == 0 else "dest-torn", sc.family),
+                                  "%s: %s of %s #%d (%s) fails, exit status %d: destination is %s" % (sc.name, ERRNO.get(pt[0]), pt[0], pt[1], desc["at"]["call"], rc,
+                                                                                                   "missing" if cls == 0 else "neither the previous nor the complete new content (%d bytes)" % len(dest or b"")), desc)
+                elif sc.ref["new"] != sc.old and ((rc == 0) != (cls == 2)):
+                    # the path holds a complete old or new file, as the property demands, but the exit status says the opposite
+                    ctx.violation("C13:outcome:%s:%s" % ("success-without-output" if rc == 0 else "error-after-commit", sc.family),
+                                  "%s: %s of %s #%d (%s) fails: exit status %d but the destination holds the %s content" % (sc.name, ERRNO.get(pt[0]), pt[0], pt[1], desc["at"]["call"], rc, "previous" if cls != 2 else "new"), desc, False)
+                if not input_ok:
+                    ctx.violation("C13:spec:input-modified", "%s: input modified (%s #%d fails)" % (sc.name, pt[0], pt[1]), desc)
+            # ---- model: fault n (not where the run already is a violation of the property: same root cause)
+            bad = not exempt and sc.dest != "-" and (cls == 3 or (cls == 0 and sc.old is not None))
+            if m is not None and m["mode"] == 2 and m["natural"] < 0 and not bad:
+                fk = evs_ref[j]["k"]
+                got = kinds_of([(e["k"], e["a"]) for e in evs_ref[:j + 1]])
+                ns = [n for n in range(len(m["ops"])) if m["ops"][n][0] == fk and kinds_of(m["ops"][:n + 1]) == got]
+                if not ns:
+                    continue
+                mf = m["faults"][ns[0]]
+                ignored, mobs, mclean = mf[0], mf[1:5], mf[5]
+                if ignored:
+                    stats["ignored_failures"] += 1
+                real = [cls, 1 if temps else 0, 1 if input_ok else 0, 1 if islink else 0]
+                if sc.in_place_name:
+                    real[2] = mobs[2]
+                exp_after = kinds_of(m["ops"][ns[0] + 1:]) if ignored else kinds_of([(k, 0) for k in mclean])
+                got_after = kinds_of(after)
+                if not ignored and got_after != exp_after and got_after[len(got_after) - len(exp_after):] == exp_after \
+                        and all(k in (1, 2, 8, 9, 10, 14, 15, 16) for k in got_after[:len(got_after) - len(exp_after)]):
+                    # the callee went on touching the temporary for a while before the error surfaced (protocol_fault_delayed)
+                    stats["delayed_giving_up"] = stats.get("delayed_giving_up", 0) + 1
+                    got_after = exp_after
+                if (rc == 0) != bool(ignored) or real != mobs or (not ignored and got_after != exp_after):
+                    ctx.violation("C13:correspondence:fault:" + sc.strategy,
+                                  "%s: %s #%d (%s) fails: real code exit %d, state %s, then calls %s; model: %s, state %s, then %s" %
+                                  (sc.name, pt[0], pt[1], desc["at"]["call"], rc, real, [KIND_NAMES.get(k, k) for k in kinds_of(after)],
+                                   "ignored" if ignored else "gives up", mobs, [KIND_NAMES.get(k, k) for k in exp_after]),
+                                  dict(desc, real=real, model=mobs, after=kinds_of(after), model_after=exp_after, trace=ph.get("raw"), broken="correspondence C13.Run (fault)"), False)
+    try:
+        pe_fixup(ctx, st, base, stats)
+    except Exception as e:
+        stats["skipped"].append("pe-fixup: %s" % e)
+    stats["distinct"] = len(stats["distinct"])
+    return stats
+
+
+def legacy(ctx, st):
     base = os.path.join(ctx.scratch, "c13")
     os.makedirs(base, exist_ok=True)
     model = {}
     if st["model_ok"]:
-        res = ctx.run_model([[3, 2, i] for i in range(len(STRATEGIES))])
+        res = ctx.run_model([[0, 3, 2, i] for i in range(len(STRATEGIES))])
         for i, (succ, err) in enumerate(res):
             model[STRATEGIES[i]] = (collapse(succ), collapse(err))
     evaluations, covered, kill_points = 0, set(), 0
@@ -201,11 +1020,22 @@ def run(ctx, replay=None):
                               {"strategy": s, "dest_exists": de, "kill_at": k, "killed_at": killed_at})
             if not input_ok:
                 ctx.violation("C13:spec:input-modified", "input modified (%s, kill at %s)" % (s, k), {"strategy": s, "dest_exists": de, "kill_at": k})
+    return evaluations, covered, kill_points, samples
+
+def run(ctx, replay=None):
+    st = ctx.prepare(["C13_gen"], ["C13"], "C13.Run")
+    if not st["harness_ok"]:
+        return ctx.finish("proof", ctx.proof_coverage([], FP), [])
+    evaluations, covered, kill_points, samples = legacy(ctx, st)
+    x = extended(ctx, st)
     ctx.proof_verdict()
-    cov = ctx.proof_coverage(["srcgen: ordered call tables of atomicfile.Commit/Close/New/WriteInPlace, presence of the deferred Close in each strategy",
-                              "harness: drv c13op runs one output phase of the real code under strace; SIGKILL injected at syscall entry (strace -e inject=...:signal=SIGKILL:when=k)",
+    cov = ctx.proof_coverage(["srcgen: ordered call tables of atomicfile.Commit/Close/New/WriteInPlace; scripts (call, error handling kind, loop depth, enclosing branches) of Commit, Close, New, WriteFile, WriteInPlace, fileProducer.Apply, applyRewrite, msiTransformer.Apply, pgpTransformer.Apply; decisions WriteAny / isSpecial / canOverwrite / hasLinks / Apply's eligibility conditions; arguments of TempFile, Rename, Remove, Lstat",
+                              "harness: drv c13op / c13x run one output phase of the real code under strace; SIGKILL injected at syscall entry (strace -e inject=...:signal=SIGKILL:when=k), errors injected into single calls (…:error=ENOSPC|EIO|EACCES|EPERM:when=k)",
+                              "what a Go library call does in system calls (io.Copy -> write / copy_file_range, File.Seek -> lseek, os.Rename -> lstat + renameat) is written by hand in C13/Strategies.v and compared with the trace on every run; comdoc's edits of the MSI copy and go-crypto's merge output are read off the trace (their content is the business of C18 / FmtPGP)",
                               "POSIX rename atomicity (the one assumed primitive); durability across power loss (fsync) is outside the property and the model"], FP)
-    cov.update({"evaluations": evaluations, "distinct_nontrivial": len(covered),
-                "rule": "5 output strategies (WriteFile, whole-file Apply, patch-by-rewrite, MSI copy-then-edit, PGP) x destination present / absent / symbolic link to a regular file; SIGKILL at each traced system call index around and inside the output phase (every index in thorough); distinct = (strategy, destination, ops completed, interrupted syscall) actually killed",
-                "samples": samples, "kill_points": kill_points, "exhaustive": ctx.tier == "thorough"})
+    cov.update({"evaluations": evaluations + x.get("runs", 0), "distinct_nontrivial": len(covered) + x.get("distinct", 0),
+                "rule": "first session: 5 output strategies (WriteFile, whole-file Apply, patch-by-rewrite, MSI copy-then-edit, PGP) x destination present / absent / symbolic link; SIGKILL at each traced system call of the output phase. "
+                        "Session 4: %d scenarios = strategy (whole, WriteFile, patch by rewrite / in place / failing by itself, MSI copy-then-edit / in place, PGP detached / inline / clearsign) x destination (absent, regular, symbolic link, dangling link, other directory, through a linked directory, the input itself, symbolic / hard link to the input, '-', link to /dev/null) + sequential signings; per scenario an uninterrupted run, SIGKILL at every call of the output phase and an error injected into every call; each observation judged by the property text (model-free) and compared with the extracted model (plan, scrash k, fault n); distinct = (strategy, destination, injection, kind of call) actually hit" % x.get("scenarios", 0),
+                "samples": samples + x.get("samples", []), "kill_points": kill_points + x.get("kill_points", 0), "exhaustive": ctx.tier == "thorough",
+                "session4": {k: v for k, v in x.items() if k not in ("samples",)}})
     return ctx.finish("proof", cov, ["POSIX rename atomicity", "strace per-thread syscall counting on the locked main thread"])
